@@ -187,6 +187,23 @@ def chanfile_delivery_part(ctx, rng, own_prefixes):
     return {"cases": len(cases), "verdict_histogram": hist}
 
 
+def cbend_part(ctx):
+    """C07 on real popen / socket / via gateways: callbacks that raise when they are handed their endmarker, on either side; judged by
+    spec/CbEndCases.tla (no other channel disturbed, the connection stays up)"""
+    from real import cbend_real
+
+    outs = [cbend_real.run(k) for k in (("popen",) if ctx.quick else ("popen", "socket", "via"))]
+    verdicts = batch.judge("CbEndCases", outs, ctx.scratch)
+    hist = {}
+    for o, vd in zip(outs, verdicts):
+        hist[vd] = hist.get(vd, 0) + 1
+        if vd.startswith("HARNESS"):
+            ctx.machinery(f"{vd}: {json.dumps(o)[:300]}")
+        elif vd != "ok":
+            ctx.violation(f"{vd}: {json.dumps(o)[:400]}", o)
+    return {"cases": len(outs), "verdict_histogram": hist}
+
+
 def chanfile_error_part(ctx, rng):
     """C07 through makefile("r") on a real popen gateway: remote code sends text items and then raises; the file is read in pieces,
     then waitclose() and receive() are called on the channel; TLC requires exactly one RemoteError among all these calls"""
